@@ -79,48 +79,56 @@
  *    strnatcmp_s() wcscmp_s()
  */
 
-/* TODO: bounds check */
-static int compare_right(wchar_t const *a, wchar_t const *b) {
+/* a and b are bounded by alen and blen, behind them the strings count as
+   ended */
+static int compare_right(wchar_t const *a, size_t alen, wchar_t const *b,
+                         size_t blen) {
     int bias = 0;
 
     /* The longest run of digits wins.  That aside, the greatest
        value wins, but we can't know that it will until we've scanned
        both numbers to know that they have the same magnitude, so we
        remember it in BIAS. */
-    for (;; a++, b++) {
-        if (!iswdigit((wint_t)*a) && !iswdigit((wint_t)*b))
+    for (;; a++, b++, alen--, blen--) {
+        const wchar_t ca = alen ? *a : L'\0';
+        const wchar_t cb = blen ? *b : L'\0';
+        if (!iswdigit((wint_t)ca) && !iswdigit((wint_t)cb))
             return bias;
-        if (!iswdigit((wint_t)*a))
+        if (!iswdigit((wint_t)ca))
             return -1;
-        if (!iswdigit((wint_t)*b))
+        if (!iswdigit((wint_t)cb))
             return +1;
-        if (*a < *b) {
+        if (ca < cb) {
             if (!bias)
                 bias = -1;
-        } else if (*a > *b) {
+        } else if (ca > cb) {
             if (!bias)
                 bias = +1;
-        } else if (!*a && !*b)
+        } else if (!ca && !cb)
             return bias;
     }
 
     return 0;
 }
 
-/* TODO: bounds check */
-static int compare_left(wchar_t const *a, wchar_t const *b) {
+/* a and b are bounded by alen and blen, behind them the strings count as
+   ended */
+static int compare_left(wchar_t const *a, size_t alen, wchar_t const *b,
+                        size_t blen) {
     /* Compare two left-aligned numbers: the first to have a
        different value wins. */
-    for (;; a++, b++) {
-        if (!iswdigit((wint_t)*a) && !iswdigit((wint_t)*b))
+    for (;; a++, b++, alen--, blen--) {
+        const wchar_t ca = alen ? *a : L'\0';
+        const wchar_t cb = blen ? *b : L'\0';
+        if (!iswdigit((wint_t)ca) && !iswdigit((wint_t)cb))
             return 0;
-        if (!iswdigit((wint_t)*a))
+        if (!iswdigit((wint_t)ca))
             return -1;
-        if (!iswdigit((wint_t)*b))
+        if (!iswdigit((wint_t)cb))
             return +1;
-        if (*a < *b)
+        if (ca < cb)
             return -1;
-        if (*a > *b)
+        if (ca > cb)
             return +1;
     }
     return 0;
@@ -228,21 +236,30 @@ EXPORT errno_t _wcsnatcmp_s_chk(const wchar_t *dest, rsize_t dmax,
         wchar_t cb = src[bi];
 
         /* skip over leading spaces or zeros */
-        while (iswspace((wint_t)ca))
-            ca = dest[++ai];
+        while (iswspace((wint_t)ca)) {
+            /* nothing but white space left inside dmax: no difference */
+            if (++ai >= dmax)
+                goto eok;
+            ca = dest[ai];
+        }
 
-        while (iswspace((wint_t)cb))
-            cb = src[++bi];
+        while (iswspace((wint_t)cb)) {
+            if (++bi >= smax)
+                goto unterm;
+            cb = src[bi];
+        }
 
         /* process run of digits */
         if (iswdigit((wint_t)ca) && iswdigit((wint_t)cb)) {
             fractional = (ca == L'0' || cb == L'0');
 
             if (fractional) {
-                if ((*resultp = compare_left(dest + ai, src + bi)) != 0) {
+                if ((*resultp = compare_left(dest + ai, dmax - ai, src + bi,
+                                             smax - bi)) != 0) {
                     goto eok;
                 }
-            } else if ((*resultp = compare_right(dest + ai, src + bi)) != 0) {
+            } else if ((*resultp = compare_right(dest + ai, dmax - ai, src + bi,
+                                                     smax - bi)) != 0) {
                 goto eok;
             }
         }
@@ -267,6 +284,7 @@ EXPORT errno_t _wcsnatcmp_s_chk(const wchar_t *dest, rsize_t dmax,
         ++bi;
 
         if (unlikely(bi >= smax)) {
+        unterm:
             invoke_safe_str_constraint_handler("wcsnatcmp_s"
                                                ": src unterminated",
                                                (void *)src, ESUNTERM);
